@@ -95,3 +95,16 @@ Theorem C03_push_projects : forall f id data wd oid s x y r f' rr,
      same_S s s' /\ e_slots (f_ep f') = e_slots (f_ep f) /\
      f_out f' = f_out f ++ (if st_txopen s then [] else [wire id F.FRst]).
 Proof. exact push_projects. Qed.
+
+(* ---- the pair model restricted to one established flow is simulated by the two flow models (Mux/Simulate.v):
+   the flow theorems above are theorems about the pair model for every single-flow script ---- *)
+From PV Require Import Mux.Simulate.
+
+Theorem C03_pair_flow_invariants : forall id ls s fs, Rel id s fs -> Forall lab_ok ls ->
+  let fs' := snd (flow_results fs ls) in
+  Rel id (snd (pair_results s ls)) fs' /\
+  FP.Inv (FD.f0 fs') /\ FP.Inv (FD.f1 fs') /\
+  F.overrun (FD.f0 fs') = false /\ F.overrun (FD.f1 fs') = false /\
+  (exists rest, F.written (FD.f0 fs') = F.readout (FD.f0 fs') ++ rest) /\
+  (exists rest, F.written (FD.f1 fs') = F.readout (FD.f1 fs') ++ rest).
+Proof. exact pair_flow_invariants. Qed.
